@@ -1,0 +1,7 @@
+//go:build !verif
+
+package dials
+
+// verifPoint marks a scheduling point for the verification harness (see verifhook_on.go).
+// Without the "verif" build tag it is an empty function that the compiler inlines away.
+func verifPoint(string, ...any) {}
